@@ -39,6 +39,10 @@ func genCase(t *rapid.T) Case {
 	c.Cfg = gen.GenOutCfg(t, nil, nil)
 	c.Cmds = gen.GenStream(t, c.Cfg, gen.StreamOpts{MaxCmds: 40})
 	c.Sched = gen.GenSchedule(t, c.Cfg, true)
+	if rapid.IntRange(0, 4).Draw(t, "pingIdle") == 0 {
+		// an idle master: keep-alive PINGs surrounded by idle time, in front of SELECT / MULTI
+		c.Cmds, c.Sched = gen.PingIdle(t, c.Cfg, c.Cmds)
+	}
 	c.Start = rapid.Int64Range(0, 1<<33).Draw(t, "start")
 	return c
 }
